@@ -9,31 +9,47 @@ C_DRIVER = "harness/drivers/c07_driver.c"
 REPO_SOURCES = ["muggle/c/memory/bytes_buffer.c"]
 HEADER_LINES = 1
 CASE_TIMEOUT = 5.0
+LINK_FLAGS = ["-Wl,--wrap=malloc"]      # "init <c> fail": the malloc inside muggle_bytes_buffer_init returns NULL
 SHRINK_BUDGET = 200
 
 RULE = ("(1) explicit-state enumeration: every (w,r,t) state reachable from init for capacities 2..6 (quick) / 2..12 "
-        "(thorough), each reached by replaying a shortest BFS-generated operation sequence and then probed with every "
-        "operation at every size 0..c (wfc n x wmn k<=n, rfc n x rmove k<=n+1 included), followed by a full drain and a "
-        "capacity re-use round; (2) seeded random long histories for capacities up to 64 with sizes drawn at the "
-        "case-split boundaries of the current state (cw, jw, cr, rd, wr and their +-1); (3) sequences aimed at: "
-        "truncating jump, reader wrap (by read or reader_move), writer arriving at t-1 / exactly t / t+1 of the stale "
-        "mark by write / writer_move_n / writer_move, then reads.  A case is non-trivial when at least one write was "
-        "accepted and at least one byte was delivered; distinct = distinct script text")
+        "(thorough), each reached by replaying a shortest BFS-generated operation sequence and then probed with (a) every "
+        "operation at every size 0..c (wfc n x wmn k<=n, rfc n x rmove k<=n+1 included), (b) every int-taking operation at "
+        "sizes c+2, c+7, 2c+1, 129, 1000, INT_MAX and writer_fc / reader_fc at -1, -2, -c-1, INT_MIN, (c) the zero-copy pairs "
+        "with the OTHER side working in between (capacities <= 6 quick / <= 8 thorough): writer_fc n, then every read j / "
+        "reader_move j / fetch / rfc+rmove (complete drains and drain-then-more included), then writer_move_n k; and "
+        "reader_fc n, then every write j / writer_move / writer_fc+writer_move_n, a re-read of the exposed region, "
+        "reader_move k; each followed by a full drain and a capacity re-use round; (2) the enumeration (a) for capacities "
+        "2..5 (2..7) again with zero-heavy and with filler/0xFF/high-byte payloads (the (a) probes themselves always carry the "
+        "neighbour-distinct counter payload); (3) seeded random long histories for "
+        "capacities 2..64 and 129..320 with sizes drawn at the case-split boundaries of the current state (cw, jw, cr, rd, wr "
+        "and their +-1), beyond the capacity, and with reader operations between writer_fc and writer_move_n (writer "
+        "operations between reader_fc and reader_move); (4) sequences aimed at: truncating jump, reader wrap (by read or "
+        "reader_move), writer arriving at t-1 / exactly t / t+1 of the stale mark; a region handed out at w in shape A / B "
+        "or by a jump, the reader draining the buffer in 1..3 steps, the commit of 0 / 1 / n-1 / n bytes afterwards; every copy "
+        "path with both pieces > 128 bytes; (5) capacity 0, 1, negative capacities, failing malloc.  Payload bytes cover the "
+        "whole alphabet (running counter mod 256 from a per-case start: 0x00, the filler 0xEE, 0xFF, high bytes; chunks "
+        "that begin and end with 0x00 and contain runs of zeros).  A case is non-trivial when at least one write was accepted "
+        "and at least one byte was delivered; distinct = distinct script text")
 TRUSTED_BASE = [
-    "modelled, not verified: C int overflow (sizes and capacities are far below 2^31); malloc'ed contents (the driver fills the fresh buffer with 0xEE and the model starts from the same filler)",
-    "memory safety on the implementation side is ASan on exact-size heap blocks (buffer, every source and destination); on the model side the theorem bb_indices_in_range",
+    "modelled, not verified: C int overflow (every comparison of the code precedes the addition it guards, so sizes up to INT_MAX do not overflow; capacities are far below 2^31); malloc'ed contents (the driver fills the fresh buffer with 0xEE and the model starts from the same filler); LP64: malloc((size_t)capacity) of a negative int cannot succeed",
+    "memory safety on the implementation side is ASan on exact-size heap blocks (buffer, every source and destination; a request beyond the capacity gets a block of capacity bytes, so a wrong success is an ASan report); on the model side the theorem bb_indices_in_range",
 ]
 ASSUMPTIONS = [
-    "sizes are non-negative; capacity >= 1",
-    "writer_move_n(ptr,k) directly follows the writer_fc(n) that returned ptr, with k <= n (DESIGN.md Appendix B); a reader operation in between is an API hazard outside the property's histories",
+    "the byte count given to read / fetch / reader_move is not negative (hypothesis wf_op of the theorems; write / writer_move / writer_move_n get their counts from payload lengths in the operation language).  OBSERVATION OUTSIDE THE PROPERTY (coordinator's decision: a negative count is not an applicable size), unchanged code, capacity 8 after write \"abc\", ints are compared signed so `cr >= num_bytes` / `cw >= num_bytes` holds for every negative count: fetch(-1), read(-1), write(-1): memcpy(.., (size_t)-1) (ASan negative-size-param); writer_move(-5), writer_move_n(p,-5): return true, w = -2, the next write stores at buffer-2; reader_move(-2): returns true, r = -2, readable() 3 -> 5, the next read loads buffer[-2]; writer_fc(-1) / reader_fc(-1): harmless (buffer+w / buffer+r, nothing touched, nothing changed) - these two ARE driven with negative counts and compared with the model.  The drivers do not perform a read / fetch / rmove line with a negative count (\"skip\"), the generator never emits one",
+    "capacity >= 0 for the theorems; capacity 0 (successful malloc(0)) is covered (every write refused, nothing ever changes), a negative capacity is a failing allocation (init returns false)",
+    "writer_move_n(ptr,k): ptr is the pointer of the last successful writer_fc(n), k <= n, and no writer-side operation (write, writer_move, clear) was called in between (DESIGN.md Appendix B); READER-side operations and fetch in between are allowed and covered (until the buffer is empty and beyond).  Outside that contract the script line is not performed (\"skip\")",
     "deprecated writer_move(n) is exercised in its documented pairing: writer_fc(n), store n bytes, writer_move(n)",
+    "write(n, src) with n >= capacity and writer_fc(n) + writer_move(n) with n >= capacity are driven without payload (explicit-count lines writen / wmoven): they can never be accepted; at capacity 0 the 0-byte advance of wmoven 0 succeeds as a no-op",
 ]
 EVIDENCE_NOTES = [
-    "model and theorems are for the REPAIRED code (fixes/C07-stale-truncation-mark.patch, fixes/C07-reader-move-wrap.patch); on the unpatched tree the monitor reports both defects",
-    "proved (unbounded, every capacity, every history; nothing is left _partial): bb_inv_reachable, bb_refines_fifo (trace-level FIFO refinement incl. readable = accepted - consumed after every operation, zero-copy pairs with partial advances, deprecated writer_move pairing), bb_step_refines (same from any state satisfying the invariant), bb_readable_exact, bb_fail_iff_lack (every operation kind) and bb_refused_changes_nothing, bb_reader_never_stuck, bb_space_accounting, bb_empty_all_writable, bb_indices_in_range; Examples orig_stale_mark_resurrects / orig_reader_move_stuck show by computation that the two original tests break the invariant",
+    "model and theorems are for the REPAIRED code (fixes/C07-stale-truncation-mark.patch, fixes/C07-reader-move-wrap.patch, fixes/C07-writer-move-n-after-drain.patch); on the unpatched tree the monitor reports the defects",
+    "third defect (found by an independent review, reproduced here): writer_fc(n) hands out buffer+w with w > 0, reader-side operations then consume every unread byte (refresh() resets w = r = 0), writer_move_n(ptr, k >= 1) only added k to w: the k bytes at the origin are delivered a second time and the k bytes stored in the region are lost.  Determined exactly: of 50228 quick cases on the unrepaired tree the monitor failed on 4437, all of them inside the class 'region at offset > 0, buffer emptied by the reader, commit of k >= 1 bytes' (5466 cases; the 1029 silent ones have the same wrong cursors but the stale bytes happen to equal the committed ones); no case outside the class failed; a region handed out by a jump to the origin, a region at offset 0 and a commit of 0 bytes were always handled correctly (theorem bb_orig_commit_wrong_only_after_drain + Example orig_commit_after_drain_loses_bytes).  Repair: writer_move_n puts w and r at the pointer when bytes are committed through a pointer that is neither the origin nor buffer+w.  'never reset to the origin in reader operations' was rejected: the repository's unit test fc_and_move_n_case1 asserts w = r = 0, t = c after a draining reader_move.  The 8 unit tests of test/bytes_buffer pass unchanged with the patch",
+    "proved (unbounded, every capacity >= 0, every history of the widened operation language; nothing is left _partial): bb_inv_reachable, bb_refines_fifo (trace-level FIFO refinement incl. readable = accepted - consumed after every operation, zero-copy pairs with partial advances AND with the other side working in between, deprecated writer_move pairing, sizes beyond the capacity, negative counts for writer_fc / reader_fc, capacity 0), bb_step_refines (same from any state satisfying the invariant), bb_readable_exact, bb_readable_exact_every_capacity, bb_fail_iff_lack (every operation kind) and bb_refused_changes_nothing, bb_reader_never_stuck, bb_space_accounting, bb_empty_all_writable, bb_indices_in_range, bb_regions_stay_valid, bb_commit_through_region, bb_reader_keeps_writer_region, bb_writer_keeps_reader_region, bb_orig_commit_wrong_only_after_drain, bb_init_fails_iff_alloc_fails; Examples orig_stale_mark_resurrects / orig_reader_move_stuck / orig_commit_after_drain_loses_bytes show by computation what the three original code paths did",
     "second tie: contiguous_writable / jump_writable / jump_readable / contiguous_readable are translated from the C text on every run by the shared AST translator lib/leaftrans.py (coq/gen/Params_C07.v) and bb_helpers_match_source proves them equal to the model's helpers by a decision tactic that does not depend on the shape of the C text; an edit of a helper that changes its value anywhere, or makes it untranslatable or absent, breaks that obligation; only these four functions are required to exist by name",
-    "only covered by the differential run, not by a theorem: agreement of the hand-written model of the operations themselves (write/read/fetch/fc/move bodies) with the C text; behaviour for negative sizes or for writer_move_n used outside its contract",
+    "only covered by the differential run, not by a theorem: agreement of the hand-written model of the operations themselves (write/read/fetch/fc/move bodies, init) with the C text; behaviour of writer_move_n used outside its contract",
     "'st' lines (private fields c w r t) are informational: used for the distinct-state tally, never compared between model and implementation",
+    "input distribution keys: big:<path> = operations longer than 128 bytes per copy / advance path as predicted by the generator; neg-fc = writer_fc / reader_fc lines with a negative count; region-survives-reader-op = reader-side operations executed while a writer region was outstanding; commit-after-drain = commits through a region after the reader emptied the buffer",
 ]
 
 FILL = 0xEE
@@ -132,6 +148,8 @@ def _refresh(c, s):
 
 def a_write(c, s, n):
     w, r, t = s
+    if n < 0:
+        return s, False
     cw, jw = a_cw(c, s), a_jw(c, s)
     if cw >= n:
         return _adv(c, s, n), True
@@ -144,6 +162,8 @@ def a_write(c, s, n):
 
 def a_read(c, s, n):
     w, r, t = s
+    if n < 0:
+        return s, False
     cr, jr = a_cr(c, s), a_jr(c, s)
     if cr >= n:
         r1 = r + n
@@ -154,7 +174,7 @@ def a_read(c, s, n):
 
 
 def a_wfc(c, s, n):
-    if a_cw(c, s) >= n:
+    if a_cw(c, s) >= n:          # also every negative n (ints are compared signed): the code returns buffer + w
         return s[0]
     if a_jw(c, s) >= n:
         return 0
@@ -162,14 +182,22 @@ def a_wfc(c, s, n):
 
 
 def a_wmn(c, s, off, k):
+    """writer_move_n as REPAIRED (fixes/C07-writer-move-n-after-drain.patch): a region that no longer starts at w
+    because the buffer was emptied and went back to the origin is committed where it is"""
     w, r, t = s
+    if k < 0:
+        return s
     if off == 0:
         return (k, r, w if w > 0 else t)
+    if k > 0 and off != w:
+        s = (off, off, t)
     return _adv(c, s, k)
 
 
 def a_wmove(c, s, n):
     w, r, t = s
+    if n < 0:
+        return s, False
     if a_cw(c, s) >= n:
         return _adv(c, s, n), True
     if a_jw(c, s) >= n:
@@ -179,6 +207,8 @@ def a_wmove(c, s, n):
 
 def a_rmove(c, s, k):
     w, r, t = s
+    if k < 0:
+        return s, False
     if a_cr(c, s) >= k:
         r1 = r + k
         return _refresh(c, (w, 0 if r1 == t else r1, t)), True
@@ -186,15 +216,16 @@ def a_rmove(c, s, k):
 
 
 def a_apply(c, s, pend, aop):
-    """abstract effect of one script op; returns (state, pending pointer)"""
+    """abstract effect of one script op; returns (state, outstanding writer region).  The region survives
+    reader-side operations, fetch and a refused writer_fc; writer-side operations and clear drop it."""
     k = aop[0]
     if k == "write":
         return a_write(c, s, aop[1])[0], None
     if k == "read":
-        return a_read(c, s, aop[1])[0], None
+        return a_read(c, s, aop[1])[0], pend
     if k == "wfc":
         off = a_wfc(c, s, aop[1])
-        return s, ((off, aop[1]) if off is not None else None)
+        return s, ((off, aop[1]) if off is not None else pend)
     if k == "wmn":
         if pend is not None and aop[1] <= pend[1]:
             return a_wmn(c, s, pend[0], aop[1]), None
@@ -202,12 +233,12 @@ def a_apply(c, s, pend, aop):
     if k == "wmove":
         return a_wmove(c, s, aop[1])[0], None
     if k == "rmove":
-        return a_rmove(c, s, aop[1])[0], None
+        return a_rmove(c, s, aop[1])[0], pend
     if k == "clear":
         return (0, 0, c), None
-    if k == "st":
+    if k in ("st", "fetch", "rfc", "rpk"):
         return s, pend
-    return s, None          # fetch, rfc
+    return s, None          # writen, wmoven: refused or not performed; they drop the region
 
 
 def bfs_states(c):
@@ -244,6 +275,21 @@ def bfs_states(c):
     return order, paths
 
 
+INT_MAX = 2147483647
+INT_MIN = -2147483648
+
+
+def odd_sizes(c):
+    """sizes beyond 0..c+1: beyond the capacity, beyond 128, INT_MAX"""
+    return [c + 2, c + 7, 2 * c + 1, 129, 1000, INT_MAX]
+
+
+def neg_sizes(c):
+    """negative counts: driven only through writer_fc / reader_fc, which are well-behaved for them (a negative count
+    is outside the documented usage of the other operations: see ASSUMPTIONS)"""
+    return [-1, -2, -c - 1, INT_MIN]
+
+
 def probes(c, s):
     """every operation at every size applicable (or just refused) in state s"""
     out = []
@@ -268,42 +314,164 @@ def probes(c, s):
     return out
 
 
+def odd_probes(c, s):
+    """every int-taking operation with sizes beyond the capacity up to INT_MAX; writer_fc / reader_fc with negative counts"""
+    out = []
+    for n in odd_sizes(c):
+        for k in ("read", "fetch", "rfc", "rmove", "writen", "wmoven"):
+            out.append([(k, n)])
+        out.append([("wfc", n), ("wmn", 0)])
+    for n in neg_sizes(c):
+        out.append([("wfc", n), ("wmn", 0)])
+        out.append([("wfc", 1), ("wfc", n), ("wmn", 1)])
+        out.append([("rfc", n), ("rpk",), ("rmove", 0)])
+        out.append([("rfc", n), ("write", 1), ("rpk",)])
+    out.append([("write", c + 1)])
+    out.append([("write", c + 3)])
+    out.append([("wmove", c + 2)])
+    return out
+
+
+def region_probes(c, s):
+    """the zero-copy pairs with the OTHER side working in between:
+    writer_fc n -> reader-side operations (drains included) -> writer_move_n k, and
+    reader_fc n -> writer-side operations -> re-read of the exposed region -> reader_move k"""
+    out = []
+    rd, cr = a_rd(c, s), a_cr(c, s)
+    rseqs = [[("read", j)] for j in range(0, rd + 2)] + [[("rmove", j)] for j in range(0, cr + 2)]
+    rseqs += [[("fetch", rd)], [("rfc", cr), ("rmove", cr)], [("read", rd), ("read", 0)], [("read", rd), ("rfc", 0), ("rmove", 0)]]
+    if rd >= 2:
+        rseqs += [[("read", 1), ("read", rd - 1)], [("rmove", 1), ("fetch", 1), ("read", rd - 1)]]
+    for n in range(0, c + 1):
+        if a_wfc(c, s, n) is None:
+            continue
+        for R in rseqs:
+            for k in sorted(set([0, 1, n - 1, n]) & set(range(0, n + 1))):
+                out.append([("wfc", n)] + R + [("wmn", k)])
+    wr, cw, jw = a_wr(c, s), a_cw(c, s), a_jw(c, s)
+    wseqs = [[("write", j)] for j in range(0, wr + 2)]
+    wseqs += [[("wmove", j)] for j in sorted(set([0, 1, cw, jw, cw + 1])) if 0 <= j <= c]
+    for j in sorted(set([1, cw, jw])):
+        if 0 <= j <= c and a_wfc(c, s, j) is not None:
+            wseqs += [[("wfc", j), ("wmn", i)] for i in sorted(set([0, j]))]
+    for n in range(0, cr + 1):
+        for W in wseqs:
+            for k in sorted(set([0, n, n + 1])):
+                out.append([("rfc", n)] + W + [("rpk",), ("rmove", k)])
+    return out
+
+
 def with_drain(c, aops):
     """append: st, read everything that should be left, st, refill c-1, read it back"""
     s, pend = (0, 0, c), None
     for a in aops:
         s, pend = a_apply(c, s, pend, a)
     rest = a_rd(c, s)
-    return list(aops) + [("st",), ("read", rest), ("st",), ("write", c - 1), ("fetch", c - 1), ("read", c - 1)]
+    tail = [("st",), ("read", rest), ("st",)]
+    if c >= 2:
+        tail += [("write", c - 1), ("fetch", c - 1), ("read", c - 1)]
+    return list(aops) + tail
 
 
-def mk_case(name, c, aops):
-    """abstract ops -> script lines; written bytes are a running counter (never the filler)"""
-    lines = ["init %d" % c]
-    ctr = [0]
+# ---- payload bytes: the whole alphabet -------------------------------------------------------
+# palette 0: a running counter modulo 256 from a per-case start (every value incl. 0x00, the filler
+#            0xEE and 0xFF; neighbours always differ, so a copy that is one byte off is visible);
+#            the start is chosen so that 0x00 resp. 0xEE fall into the first few bytes in 3 of 5 cases
+# palette 1: every chunk begins and ends with 0x00 and has runs of zeros inside
+# palette 2: filler / 0xFF / high bytes only
+def _palette(name, strong=False):
+    """strong: only the neighbour-distinct counter palette (classic enumeration probes: a copy that is one byte off
+    must always be visible, exactly as with the former 1..199 counter)"""
+    import zlib
+    h = zlib.crc32(name.encode())
+    sel, x = h % (5 if strong else 8), (h >> 8) & 0xFF
+    if sel in (0, 1):
+        return 0, (0x100 - x % 8) & 0xFF
+    if sel == 2:
+        return 0, (0xEE - x % 8) & 0xFF
+    if sel in (3, 4):
+        return 0, x
+    if sel in (5, 6):
+        return 1, x
+    return 2, x
+
+
+def _chunk(pal, ctr, n):
+    bs = []
+    for i in range(n):
+        x = ctr + i
+        if pal == 0:
+            b = x & 0xFF
+        elif pal == 1:
+            b = 0 if ((n >= 2 and (i == 0 or i == n - 1)) or x % 3 == 0) else (x % 255) + 1
+        else:
+            b = (0xEE, 0xFF, 0x80 + x % 0x48, 0xC8 + x % 0x37)[x % 4]
+        bs.append(b)
+    return bs
+
+
+def mk_case(name, c, aops, pal=None, init_fail=False):
+    """abstract ops -> script lines"""
+    lines = ["init %d%s" % (c, " fail" if init_fail else "")]
+    palette, start = _palette(name) if pal is None else pal
+    ctr = [start]
 
     def data(n):
         if n <= 0:
             return "-"
-        bs = []
-        for _ in range(n):
-            bs.append("%02x" % (ctr[0] % 199 + 1))
-            ctr[0] += 1
-        return "".join(bs)
+        bs = _chunk(palette, ctr[0], n)
+        ctr[0] += n
+        return "".join("%02x" % b for b in bs)
     s, pend, pred = (0, 0, c), None, []
+    big = set()
     for a in aops:
         k = a[0]
+        if len(a) > 1:
+            a = (k, max(INT_MIN, min(INT_MAX, a[1])))          # every size is a C int
+        if len(a) > 1 and a[1] > 128:
+            big.add(_site(c, s, pend, a))
         s, pend = a_apply(c, s, pend, a)
         if k in ("write", "wmn", "wmove"):
             lines.append("%s %s" % (k, data(a[1])))
-        elif k in ("clear", "st"):
+        elif k in ("clear", "st", "rpk"):
             lines.append(k)
             if k == "st":
                 pred.append("st %d %d %d %d" % (c, s[0], s[1], s[2]))
         else:
             lines.append("%s %d" % (k, a[1]))
     # pred: the cursor state the generator expects at each 'st' line (tallied, never judged)
-    return V.Case(name, lines, {"c": c, "pred": pred})
+    if c < 0 or init_fail:
+        pred = []               # no buffer: every line answers "nobuf"
+    return V.Case(name, lines, {"c": c, "pred": pred, "big": sorted(x for x in big if x)})
+
+
+def _site(c, s, pend, a):
+    """which copy / advance path an operation with a size > 128 takes (generator-side tally only)"""
+    k, n = a[0], a[1]
+    if k in ("read", "fetch"):
+        if n <= a_cr(c, s):
+            return k + ":contiguous>128"
+        if n <= a_rd(c, s):
+            return k + (":split-both>128" if a_cr(c, s) > 128 and n - a_cr(c, s) > 128 else ":split>128")
+        return None
+    if k == "write":
+        cw, jw = a_cw(c, s), a_jw(c, s)
+        if n <= cw:
+            return "write:contiguous>128"
+        if n > cw + jw:
+            return None
+        if n <= jw:
+            return "write:jump>128"
+        return "write:split-both>128" if cw > 128 and n - cw > 128 else "write:split>128"
+    if k == "wmn":
+        return "wmn>128" if pend is not None and n <= pend[1] else None
+    if k == "wmove":
+        return "wmove>128" if a_wfc(c, s, n) is not None else None
+    if k == "rfc":
+        return "rfc>128" if n <= a_cr(c, s) else None
+    if k == "rmove":
+        return "rmove>128" if n <= a_cr(c, s) else None
+    return None
 
 
 # --------------------------------------------------------------------------
@@ -312,18 +480,32 @@ def corpus_cases(ctx):
     import os
     if os.environ.get("VERIF_C07_NOCORPUS"):      # bring-up aid: show that the generator finds the defects unaided
         return []
+    P0 = (0, 1)
     cs = [
         # the two defects of the unrepaired code (DESIGN.md section 5), shortest forms
         mk_case("corpus-rmove-reaches-mark", 5, [("write", 4), ("read", 3), ("write", 2), ("st",), ("rmove", 1), ("st",),
-                                                 ("rfc", 1), ("read", 2)]),
+                                                 ("rfc", 1), ("read", 2)], P0),
         mk_case("corpus-stale-mark-resurrects", 5, [("write", 4), ("read", 3), ("write", 2), ("read", 1), ("st",),
-                                                    ("write", 2), ("st",), ("read", 4), ("st",), ("read", 1)]),
-        mk_case("corpus-split-write", 8, [("write", 6), ("read", 4), ("write", 4), ("st",), ("fetch", 6), ("read", 6)]),
+                                                    ("write", 2), ("st",), ("read", 4), ("st",), ("read", 1)], P0),
+        mk_case("corpus-split-write", 8, [("write", 6), ("read", 4), ("write", 4), ("st",), ("fetch", 6), ("read", 6)], P0),
         mk_case("corpus-wmn-partial-jump", 8, [("write", 6), ("read", 4), ("wfc", 3), ("wmn", 1), ("st",), ("rfc", 2),
-                                               ("rmove", 2), ("st",), ("read", 1)]),
-        mk_case("corpus-wmn-zero-jump", 8, [("write", 6), ("read", 4), ("wfc", 3), ("wmn", 0), ("st",), ("read", 2), ("st",)]),
-        mk_case("corpus-contract-skip", 8, [("wmn", 1), ("wfc", 2), ("read", 0), ("wmn", 1), ("wfc", 2), ("wmn", 3), ("read", 1)]),
-        mk_case("corpus-cap1", 1, [("write", 0), ("write", 1), ("read", 0), ("read", 1), ("wfc", 0), ("wmn", 0), ("rfc", 0)]),
+                                               ("rmove", 2), ("st",), ("read", 1)], P0),
+        mk_case("corpus-wmn-zero-jump", 8, [("write", 6), ("read", 4), ("wfc", 3), ("wmn", 0), ("st",), ("read", 2), ("st",)], P0),
+        mk_case("corpus-contract-skip", 8, [("wmn", 1), ("wfc", 2), ("read", 0), ("wmn", 1), ("wfc", 2), ("wmn", 3), ("read", 1)], P0),
+        mk_case("corpus-cap1", 1, [("write", 0), ("write", 1), ("read", 0), ("read", 1), ("wfc", 0), ("wmn", 0), ("rfc", 0)], P0),
+        # the third defect: a region granted at w > 0, the reader drains the buffer (refresh() goes back to the origin),
+        # the commit then exposed [0,k) instead of the region (the reviewer's history, capacity 8)
+        mk_case("corpus-wfc-drain-wmn", 8, [("write", 3), ("wfc", 2), ("st",), ("read", 3), ("st",), ("wmn", 2), ("st",),
+                                            ("fetch", 2), ("read", 2)], P0),
+        mk_case("corpus-wfc-rmove-drain-wmn-wrap", 8, [("write", 5), ("read", 1), ("wfc", 3), ("rfc", 4), ("rmove", 4), ("st",),
+                                                       ("wmn", 3), ("st",), ("rfc", 3), ("read", 3)], P0),
+        mk_case("corpus-wfc-drain-wmn0", 8, [("write", 3), ("wfc", 2), ("read", 3), ("wmn", 0), ("st",), ("wfc", 7), ("wmn", 7), ("read", 7)], P0),
+        mk_case("corpus-rfc-writes-rpk", 8, [("write", 6), ("read", 4), ("rfc", 2), ("write", 3), ("rpk",), ("wfc", 1), ("wmn", 1),
+                                             ("rpk",), ("rmove", 2), ("rpk",), ("read", 4)], P0),
+        mk_case("corpus-negative-fc", 8, [("write", 3), ("rfc", -1), ("rpk",), ("wfc", -1), ("wmn", 0), ("wfc", 2), ("wfc", INT_MIN),
+                                          ("wmn", 1), ("rfc", INT_MIN), ("st",), ("read", 4)], P0),
+        mk_case("corpus-cap0", 0, [("write", 0), ("write", 1), ("read", 0), ("read", 1), ("fetch", 0), ("wfc", 0), ("wmn", 0),
+                                   ("wmove", 0), ("rfc", 0), ("rpk",), ("rmove", 0), ("rmove", 1), ("clear",), ("writen", 0)], P0),
     ]
     # recorded replays (minimised failing inputs of the unrepaired code and of mutation runs)
     d = os.path.join(V.VERIF, "corpus", "C07")
@@ -339,12 +521,49 @@ def corpus_cases(ctx):
 def gen_bfs(tier):
     cases = []
     cmax = 6 if tier == "quick" else 12
+    rmax = 6 if tier == "quick" else 8          # the interleaved-pair probes grow with c^3
     for c in range(2, cmax + 1):
         order, paths = bfs_states(c)
         for si, s in enumerate(order):
+            fams = [("bfs", probes(c, s)), ("odd", odd_probes(c, s))]
+            if c <= rmax:
+                fams.append(("reg", region_probes(c, s)))
+            for fam, prs in fams:
+                for pi, pr in enumerate(prs):
+                    aops = paths[s] + [("st",)] + pr
+                    nm = "%s-c%d-s%d_%d_%d-p%d" % (fam, c, s[0], s[1], s[2], pi)
+                    cases.append(mk_case(nm, c, with_drain(c, aops), pal=_palette(nm, strong=True) if fam == "bfs" else None))
+    return cases
+
+
+def gen_alpha(tier):
+    """the enumeration for the smallest capacities once more with the zero-heavy and the filler/high palettes"""
+    cases = []
+    cmax = 5 if tier == "quick" else 7
+    for c in range(2, cmax + 1):
+        order, paths = bfs_states(c)
+        for s in order:
             for pi, pr in enumerate(probes(c, s)):
                 aops = paths[s] + [("st",)] + pr
-                cases.append(mk_case("bfs-c%d-s%d_%d_%d-p%d" % (c, s[0], s[1], s[2], pi), c, with_drain(c, aops)))
+                for pal in (1, 2):
+                    cases.append(mk_case("alpha%d-c%d-s%d_%d_%d-p%d" % (pal, c, s[0], s[1], s[2], pi), c,
+                                         with_drain(c, aops), pal=(pal, pi)))
+    return cases
+
+
+def gen_caps(tier):
+    """capacity 0, negative capacities (malloc of a size_t beyond 2^63 fails), init failure, capacity 1"""
+    cases = []
+    ops = [("write", 0), ("write", 1), ("read", 0), ("read", 1), ("fetch", 0), ("fetch", 1), ("wfc", 0), ("wmn", 0), ("wfc", 1),
+           ("wmn", 0), ("wmove", 0), ("wmove", 1), ("rfc", 0), ("rpk",), ("rmove", 0), ("rfc", 1), ("rmove", 1), ("clear",),
+           ("st",), ("writen", 0), ("writen", 1), ("wmoven", 1), ("rfc", -1), ("rpk",),
+           ("wfc", -1), ("wmn", 0), ("wfc", 0), ("read", INT_MAX), ("writen", INT_MAX), ("st",)]
+    for c in (0, 1, -1, -7, INT_MIN):
+        cases.append(mk_case("caps-c%d" % c, c, ops))
+        for i in range(len(ops)):
+            cases.append(mk_case("caps-c%d-rot%d" % (c, i), c, ops[i:] + ops[:i]))
+    for c in (1, 2, 8, 64, 300):
+        cases.append(mk_case("caps-initfail-c%d" % c, c, ops, init_fail=True))
     return cases
 
 
@@ -452,23 +671,117 @@ def gen_zero_commit(tier):
     return cases
 
 
-def _rand_size(rng, c, s):
+def gen_region(tier):
+    """directed histories for the outstanding writer region: a region granted (a) at w > 0 in shape A with r = 0 or
+    r > 0, (b) at w in shape B, (c) by a jump to the origin; then the reader drains the buffer completely (or stops
+    one byte short) by read / rmove / rfc+rmove / two steps, optionally does something more on the empty buffer, and
+    only then the region is committed with 0, 1, n-1 or n bytes; everything is read back afterwards"""
+    cases = []
+    cmax = 10 if tier == "quick" else 16
+    idx = 0
+    for c in range(3, cmax + 1):
+        setups = []
+        for a in range(1, c):
+            setups.append(("A0", [("write", a)]))
+            for b in range(1, a):
+                setups.append(("A", [("write", a), ("read", b)]))
+        for a in range(3, c):
+            for b in range(2, a):
+                for n0 in sorted(set([c - a + 1, b - 1])):
+                    if c - a < n0 < b:
+                        setups.append(("B", [("write", a), ("read", b), ("write", n0)]))
+        for kind, pre in setups:
+            s, pend = (0, 0, c), None
+            for a_ in pre:
+                s, pend = a_apply(c, s, pend, a_)
+            cw, jw, rd, cr = a_cw(c, s), a_jw(c, s), a_rd(c, s), a_cr(c, s)
+            grants = sorted(set([1, cw, cw + 1, jw]))
+            for n in grants:
+                if n < 1 or a_wfc(c, s, n) is None:
+                    continue
+                drains = [[("read", rd)], [("rmove", cr)] + ([("read", rd - cr)] if rd > cr else []),
+                          [("rfc", cr), ("rmove", cr)] + ([("rfc", rd - cr), ("rmove", rd - cr)] if rd > cr else []),
+                          [("read", rd - 1)]]
+                if rd >= 2:
+                    drains.append([("read", 1), ("rmove", min(cr, rd) - 1 if cr > 1 else 0), ("read", rd - 1 - (min(cr, rd) - 1 if cr > 1 else 0))])
+                for di, dr in enumerate(drains):
+                    for extra in ([], [("fetch", 1), ("read", 0), ("rmove", 0), ("rfc", 0)], [("wfc", c)]):
+                        if extra and di not in (0, 1):
+                            continue
+                        for k in sorted(set([0, 1, n - 1, n]) & set(range(0, n + 1))):
+                            aops = pre + [("st",), ("wfc", n)] + dr + [("st",)] + extra + [("wmn", k), ("st",), ("fetch", k), ("rfc", 1)]
+                            cases.append(mk_case("region-%d-c%d-%s-n%d-d%d-k%d" % (idx, c, kind, n, di, k), c, with_drain(c, aops)))
+                            idx += 1
+    return cases
+
+
+def gen_bigpaths(tier):
+    """every copy path with BOTH of its pieces longer than 128 bytes (a size-dependent fast path must be entered)"""
+    cases = []
+    for c in (300, 317):
+        for d in (0, 1, 5):
+            w0, r0 = 140 + d, 135 + d                    # cw = c - w0 > 128, jw = r0 - 1 > 128
+            cw = c - w0
+            rem = 130 + d % 2
+            split = [("write", w0), ("read", r0), ("st",), ("write", cw + rem), ("st",)]      # split write, both pieces > 128
+            rd = (w0 - r0) + cw + rem
+            for how in ("fetch-read", "rfc-read", "read-parts"):
+                if how == "fetch-read":
+                    post = [("fetch", rd), ("read", rd)]                                   # split fetch / read, both pieces > 128
+                elif how == "rfc-read":
+                    post = [("rfc", c - r0), ("rmove", c - r0), ("st",), ("rfc", rem), ("rpk",), ("rmove", rem)]
+                else:
+                    post = [("read", 129), ("fetch", rd - 129), ("read", rd - 129)]
+                cases.append(mk_case("bigpaths-c%d-d%d-split-%s" % (c, d, how), c, with_drain(c, split + post)))
+            w1, r1 = 160 + d, 150 + d                    # cw = c - w1 in 129..140, jw = 149 + d
+            jump = [("write", w1), ("read", r1), ("st",)]
+            for how in ("write", "wmn", "wmove"):
+                n = c - w1 + 1 + d
+                if how == "write":
+                    mid = [("write", n)]
+                elif how == "wmn":
+                    mid = [("wfc", n), ("read", w1 - r1 - 1), ("wmn", n - 1)]
+                else:
+                    mid = [("wmove", n)]
+                cases.append(mk_case("bigpaths-c%d-d%d-jump-%s" % (c, d, how), c,
+                                     with_drain(c, jump + mid + [("st",), ("fetch", 140), ("read", 131)])))
+            # a region of > 128 bytes granted at w, the reader drains, the commit comes afterwards
+            cases.append(mk_case("bigpaths-c%d-d%d-region" % (c, d), c,
+                                 with_drain(c, [("write", 131 + d), ("wfc", 150), ("read", 131 + d), ("st",), ("wmn", 149), ("st",),
+                                                ("rfc", 149), ("read", 149)])))
+    return cases
+
+
+def _rand_size(rng, c, s, odd=True):
     cands = [0, 1, a_cw(c, s), a_cw(c, s) + 1, a_jw(c, s), a_jw(c, s) + 1, a_wr(c, s), a_wr(c, s) + 1,
              a_cr(c, s), a_cr(c, s) + 1, a_cr(c, s) - 1, a_rd(c, s), a_rd(c, s) + 1, a_rd(c, s) - 1,
              a_cw(c, s) - 1, a_jw(c, s) - 1, s[2] - s[0], s[2] - s[0] - 1, s[2] - s[1]]
+    if odd and rng.chance(1, 14):
+        return rng.choice(odd_sizes(c) + [c + 2 + rng.below(c + 2)])
     if rng.chance(1, 3):
-        n = rng.below(c + 2)
-    else:
-        n = rng.choice(cands)
-    return max(0, min(c + 1, n))
+        return rng.below(c + 2)
+    return max(0, rng.choice(cands))
+
+
+def _sized(kind, n, c):
+    """a size the script cannot carry as payload bytes goes through the explicit-count calls"""
+    if kind == "write" and n > 2 * c + 8:
+        return ("writen", n)
+    if kind == "wmove" and n > 2 * c + 8:
+        return ("wmoven", n)
+    return (kind, n)
 
 
 def gen_random(rng, count, cmin, cmax, maxlen, tag):
     cases = []
     for i in range(count):
         c = rng.range(cmin, cmax)
-        s, pend = (0, 0, c), None
+        st = {"s": (0, 0, c), "pend": None}
         aops = []
+
+        def push(a):
+            st["s"], st["pend"] = a_apply(c, st["s"], st["pend"], a)
+            aops.append(a)
         nops = rng.range(4, maxlen)
         bias = rng.choice([0, 1, 2])          # 0 balanced, 1 writer-heavy, 2 reader-heavy
         while len(aops) < nops:
@@ -483,45 +796,70 @@ def gen_random(rng, count, cmin, cmax, maxlen, tag):
                 kinds = ["st"]
             k = rng.choice(kinds)
             if k == "wfc":
-                n = _rand_size(rng, c, s)
-                seq = [("wfc", n)]
+                n = _rand_size(rng, c, st["s"])
+                if rng.chance(1, 40):
+                    n = rng.choice(neg_sizes(c))
+                push(("wfc", n))
+                # the other side may work before the region is committed (often until the buffer is empty)
+                for _ in range(rng.choice([0, 0, 0, 1, 1, 2, 3])):
+                    rk = rng.choice(["read", "read", "rmove", "fetch", "rfc", "drain", "drain"])
+                    if rk == "drain":
+                        push(("read", a_rd(c, st["s"])))
+                    else:
+                        push((rk, _rand_size(rng, c, st["s"])))
                 if rng.chance(9, 10):
-                    kk = rng.choice([0, n, n, max(0, n - 1), rng.below(n + 1)])
-                    seq.append(("wmn", kk))
+                    push(("wmn", rng.choice([0, n, n, max(0, n - 1), rng.below(n + 1)]) if 0 <= n <= 2 * c + 8 else 0))
             elif k == "rfc":
-                n = _rand_size(rng, c, s)
-                seq = [("rfc", n)]
+                n = _rand_size(rng, c, st["s"])
+                if rng.chance(1, 40):
+                    n = rng.choice(neg_sizes(c))
+                push(("rfc", n))
+                for _ in range(rng.choice([0, 0, 0, 1, 1, 2, 3])):
+                    wk = rng.choice(["write", "write", "wmove", "wfc-wmn", "fill"])
+                    if wk == "fill":
+                        push(("write", max(0, a_wr(c, st["s"]))))
+                    elif wk == "wfc-wmn":
+                        m = _rand_size(rng, c, st["s"], odd=False)
+                        push(("wfc", m))
+                        push(("wmn", rng.choice([0, max(0, m)])))
+                    else:
+                        push(_sized(wk, _rand_size(rng, c, st["s"]), c))
+                    if rng.chance(1, 2):
+                        push(("rpk",))
                 if rng.chance(9, 10):
-                    kk = rng.choice([0, n, n, max(0, n - 1), rng.below(n + 1), n + 1])
-                    seq.append(("rmove", kk))
+                    push(("rmove", max(0, rng.choice([0, n, n, max(0, n - 1), rng.below(max(1, n + 1)), n + 1]))))
             elif k in ("clear", "st"):
-                seq = [(k,)]
+                push((k,))
             else:
-                seq = [(k, _rand_size(rng, c, s))]
-            for a in seq:
-                s, pend = a_apply(c, s, pend, a)
-                aops.append(a)
+                push(_sized(k, _rand_size(rng, c, st["s"]), c))
         cases.append(mk_case("%s-%d-c%d" % (tag, i, c), c, with_drain(c, aops)))
     return cases
 
 
 def generate(rng, tier):
     cases = []
+    cases += gen_caps(tier)
     cases += gen_bfs(tier)
+    cases += gen_alpha(tier)
     cases += gen_stale(tier)
     cases += gen_zero_commit(tier)
+    cases += gen_region(tier)
+    cases += gen_bigpaths(tier)
     if tier == "quick":
-        cases += gen_random(rng.fork("small"), 1500, 2, 9, 40, "rnds")
+        cases += gen_random(rng.fork("small"), 2500, 2, 9, 40, "rnds")
         cases += gen_random(rng.fork("long"), 400, 2, 64, 300, "rndl")
+        cases += gen_random(rng.fork("big"), 300, 129, 320, 120, "rndb")     # sizes beyond 128 on every copy path
     else:
-        cases += gen_random(rng.fork("small"), 20000, 2, 12, 60, "rnds")
+        cases += gen_random(rng.fork("small"), 30000, 2, 12, 60, "rnds")
         cases += gen_random(rng.fork("long"), 4000, 2, 64, 1200, "rndl")
+        cases += gen_random(rng.fork("big"), 3000, 129, 320, 400, "rndb")
     return cases
 
 
 def search(rng, diverging, tier):
     """extra cases when a proof or the correspondence broke: many short histories on small capacities"""
-    return gen_random(rng.fork("s1"), 6000, 2, 9, 30, "search") + gen_random(rng.fork("s2"), 600, 2, 40, 200, "searchl")
+    return (gen_random(rng.fork("s1"), 6000, 2, 9, 30, "search") + gen_random(rng.fork("s2"), 600, 2, 40, 200, "searchl") +
+            gen_random(rng.fork("s3"), 200, 129, 300, 80, "searchb"))
 
 
 # --------------------------------------------------------------------------
@@ -532,27 +870,40 @@ def _unhex(h):
 
 
 def monitor(case, lines):
+    """A byte FIFO that knows nothing about cursors.  Sizes may be any int >= 0 (a negative count is outside the
+    documented usage of read / fetch / reader_move: such a line is not performed by the drivers); writer_fc /
+    reader_fc asked for a negative number of bytes may refuse or hand out an empty region, nothing may change."""
     if len(lines) != len(case.lines):
         return "implementation printed %d result lines for %d script lines" % (len(lines), len(case.lines))
     c = None
     fifo = bytearray()
     accepted = consumed = 0
     prev = None
-    pend = None
+    pend = None          # outstanding writer region (offset, n)
+    rpend = None         # outstanding reader region (offset, n)
     for i, (inp, out) in enumerate(zip(case.lines, lines)):
         w = inp.split()
         if not w:
             continue
         where = "line %d (%s)" % (i, inp if len(inp) < 60 else inp[:57] + "...")
         if w[0] == "init":
-            c = int(w[1])
+            cc = int(w[1])
+            must_fail = cc < 0 or "fail" in w[2:]
+            if must_fail:
+                if out != "init 0":
+                    return "%s: got %r, but the allocation cannot have succeeded" % (where, out)
+                c = None
+                continue
+            c = cc
             exp = "init 1 | rd=0 wr=%d cr=0" % (c - 1)
             if out != exp:
                 return "%s: got %r, a fresh buffer must report %r" % (where, out, exp)
-            fifo, accepted, consumed, prev, pend = bytearray(), 0, 0, (0, c - 1, 0), None
+            fifo, accepted, consumed, prev, pend, rpend = bytearray(), 0, 0, (0, c - 1, 0), None, None
             continue
         if c is None:
-            return None if out == "nobuf" else "%s: no buffer but got %r" % (where, out)
+            if out == "nobuf":
+                continue
+            return "%s: no buffer but got %r" % (where, out)
         if w[0] == "st":
             if not out.startswith("st "):
                 return "%s: got %r" % (where, out)
@@ -566,11 +917,12 @@ def monitor(case, lines):
         b = body.split()
         if not b or b[0] != w[0]:
             return "%s: result %r does not answer the operation" % (where, out)
-        p, pend = pend, None
         failed = False
+        noop = False         # a call with a negative size that reported success: nothing may have changed
         op = w[0]
         if op == "write":
             data = _unhex(w[1])
+            pend = None
             if b[1] == "1":
                 fifo += data
                 accepted += len(data)
@@ -578,13 +930,30 @@ def monitor(case, lines):
                 failed = True
                 if len(data) <= prev[1]:
                     return "%s: write of %d bytes refused although writable() was %d" % (where, len(data), prev[1])
+        elif op == "writen":
+            n = int(w[1])
+            pend = None
+            if n < c:
+                if b[1] != "skip":
+                    return "%s: driver protocol: expected skip" % where
+                failed = True
+            elif b[1] == "1":
+                return "%s: write of %d bytes accepted by a buffer of capacity %d" % (where, n, c)
+            else:
+                failed = True
         elif op in ("read", "fetch"):
             n = int(w[1])
-            if b[1] == "1":
+            if op == "read":
+                rpend = None
+            if n < 0:
+                if b[1] != "skip":
+                    return "%s: driver protocol: expected skip" % where
+                failed = True
+            elif b[1] == "1":
                 got = _unhex(b[2]) if len(b) > 2 else bytearray()
                 if n > len(fifo):
                     return "%s: %s of %d bytes succeeded but only %d accepted bytes are unread (got %s)" % (
-                        where, op, n, len(fifo), got.hex())
+                        where, op, n, len(fifo), got.hex()[:64])
                 if got != fifo[:n]:
                     return "%s: %s delivered %s but the accepted stream continues with %s" % (
                         where, op, got.hex() or "-", bytes(fifo[:n]).hex() or "-")
@@ -598,19 +967,22 @@ def monitor(case, lines):
         elif op == "wfc":
             n = int(w[1])
             if b[1] == "null":
-                failed = True
-                if 2 * n <= prev[1]:
+                failed = True            # the outstanding region, if any, stays outstanding
+                if 0 <= 2 * n <= prev[1]:
                     return "%s: writer_fc(%d) found nothing although writable() was %d (one of the two free stretches has >= half)" % (
                         where, n, prev[1])
-                if not fifo and n <= c - 1:
+                if not fifo and 0 <= n <= c - 1:
                     return "%s: writer_fc(%d) found nothing in an empty buffer of capacity %d" % (where, n, c)
             else:
                 off = int(b[1])
-                if off < 0 or off + n > c:
+                if off < 0 or off + max(n, 0) > c:
                     return "%s: writer_fc(%d) returned offset %d: region leaves the buffer of %d bytes" % (where, n, off, c)
+                if n > max(0, c - 1 - len(fifo)):
+                    return "%s: writer_fc(%d) granted a region although only %d bytes are free" % (where, n, c - 1 - len(fifo))
                 pend = (off, n)
         elif op == "wmn":
             data = _unhex(w[1])
+            p, pend = pend, None
             if p is None or len(data) > p[1]:
                 if b[1] != "skip":
                     return "%s: driver protocol: expected skip" % where
@@ -622,6 +994,7 @@ def monitor(case, lines):
                 accepted += len(data)
         elif op == "wmove":
             data = _unhex(w[1])
+            pend = None
             if b[1] == "1":
                 if b[2] == "null":
                     return "%s: writer_move(%d) succeeded although writer_fc(%d) returned NULL" % (where, len(data), len(data))
@@ -636,23 +1009,59 @@ def monitor(case, lines):
                     return "%s: writer_move(%d) refused although writer_fc(%d) found room" % (where, len(data), len(data))
                 if 2 * len(data) <= prev[1]:
                     return "%s: writer_move(%d) refused although writable() was %d" % (where, len(data), prev[1])
+        elif op == "wmoven":
+            n = int(w[1])
+            pend = None
+            if n < c:
+                if b[1] != "skip":
+                    return "%s: driver protocol: expected skip" % where
+                failed = True
+            elif b[1] == "1":
+                if n != 0:
+                    return "%s: writer_move(%d) succeeded in a buffer of capacity %d" % (where, n, c)
+                noop = True              # capacity 0: a 0-byte advance
+            else:
+                failed = True
+                if b[2] != "null":
+                    return "%s: writer_fc(%d) found room in a buffer of capacity %d" % (where, n, c)
         elif op == "rfc":
             n = int(w[1])
             if b[1] == "null":
                 failed = True
-                if n <= prev[2]:
+                if 0 <= n <= prev[2]:
                     return "%s: reader_fc(%d) found nothing although contiguous_readable() was %d" % (where, n, prev[2])
             else:
                 off = int(b[1])
                 got = _unhex(b[2]) if len(b) > 2 else bytearray()
-                if off < 0 or off + n > c:
-                    return "%s: reader_fc(%d) returned offset %d: region leaves the buffer" % (where, n, off)
+                if n < 0:
+                    noop = True
+                else:
+                    if off < 0 or off + n > c:
+                        return "%s: reader_fc(%d) returned offset %d: region leaves the buffer" % (where, n, off)
+                    if n > len(fifo) or got != fifo[:n]:
+                        return "%s: reader_fc(%d) exposes %s but the unread accepted bytes are %s" % (
+                            where, n, got.hex() or "-", bytes(fifo[:n]).hex() or "-")
+                rpend = (off, n)
+        elif op == "rpk":
+            if rpend is None:
+                if b[1] != "skip":
+                    return "%s: driver protocol: expected skip" % where
+                failed = True
+            else:
+                n = max(0, rpend[1])
+                got = _unhex(b[2]) if len(b) > 2 else bytearray()
                 if n > len(fifo) or got != fifo[:n]:
-                    return "%s: reader_fc(%d) exposes %s but the unread accepted bytes are %s" % (
-                        where, n, got.hex() or "-", bytes(fifo[:n]).hex() or "-")
+                    return "%s: the region reader_fc(%d) exposed now holds %s but the unread accepted bytes are %s" % (
+                        where, rpend[1], got.hex() or "-", bytes(fifo[:n]).hex() or "-")
+                noop = True
         elif op == "rmove":
             k = int(w[1])
-            if b[1] == "1":
+            rpend = None
+            if k < 0:
+                if b[1] != "skip":
+                    return "%s: driver protocol: expected skip" % where
+                failed = True
+            elif b[1] == "1":
                 if k > len(fifo):
                     return "%s: reader_move(%d) succeeded but only %d accepted bytes are unread" % (where, k, len(fifo))
                 del fifo[:k]
@@ -664,13 +1073,14 @@ def monitor(case, lines):
         elif op == "clear":
             consumed += len(fifo)
             fifo = bytearray()
+            pend = rpend = None
         else:
             return "%s: unknown operation" % where
         # observable state after the operation
         if rd != accepted - consumed:
             return "%s: readable() = %d but %d bytes were accepted and %d consumed (unread: %s)" % (
                 where, rd, accepted, consumed, bytes(fifo[:16]).hex() or "-")
-        if wr < 0 or wr > c - 1 - len(fifo):
+        if wr < min(0, c - 1) or wr > c - 1 - len(fifo):
             return "%s: writable() = %d with capacity %d and %d unread bytes" % (where, wr, c, len(fifo))
         if cr < 0 or cr > rd:
             return "%s: contiguous_readable() = %d with readable() = %d" % (where, cr, rd)
@@ -680,6 +1090,8 @@ def monitor(case, lines):
             return "%s: buffer is empty but writable() = %d, capacity %d" % (where, wr, c)
         if failed and (rd, wr, cr) != prev:
             return "%s: the operation failed but rd/wr/cr changed from %s to %s" % (where, prev, (rd, wr, cr))
+        if noop and (rd, wr, cr) != prev:
+            return "%s: an empty-region grant / a re-read changed rd/wr/cr from %s to %s" % (where, prev, (rd, wr, cr))
         prev = (rd, wr, cr)
     return None
 
@@ -703,14 +1115,20 @@ def tally(dist, case, lines):
     c = None
     pred = list((case.meta or {}).get("pred", []))
     dist.setdefault("st_lines_differing_from_generator_prediction", 0)
+    for site in (case.meta or {}).get("big", []):
+        dist["big:" + site] = dist.get("big:" + site, 0) + 1
+    pend = False
+    drained = False
     for inp, out in zip(case.lines, lines):
         w = inp.split()
         if not w:
             continue
         if w[0] == "init":
             c = w[1]
-            key = "cap<=12" if int(c) <= 12 else "cap>12"
+            ci = int(c)
+            key = "init-fails" if out == "init 0" else "cap=0" if ci == 0 else "cap<=12" if ci <= 12 else "cap<=64" if ci <= 64 else "cap>128"
             dist[key] = dist.get(key, 0) + 1
+            pend = drained = False
             continue
         if w[0] == "st":
             _STATES.add(out)
@@ -718,20 +1136,42 @@ def tally(dist, case, lines):
                 if pred.pop(0) != out:
                     dist["st_lines_differing_from_generator_prediction"] += 1
             continue
+        if out == "nobuf":
+            dist["nobuf"] = dist.get("nobuf", 0) + 1
+            continue
         b = out.split(" | ")[0].split()
         verdict = b[1] if len(b) > 1 else ""
-        if w[0] in ("wfc", "rfc"):
+        if w[0] in ("wfc", "rfc", "rpk") and verdict != "skip":
             verdict = "refused" if verdict == "null" else "ok"      # b[1] is an offset
         elif verdict not in ("0", "1", "skip"):
             verdict = "ok"
         key = "%s:%s" % (w[0], {"0": "refused", "1": "ok"}.get(verdict, verdict))
         dist[key] = dist.get(key, 0) + 1
+        if w[0] in ("wfc", "rfc") and len(w) > 1 and w[1].startswith("-"):
+            dist["neg-fc"] = dist.get("neg-fc", 0) + 1
+        if len(w) > 1 and w[0] in ("read", "fetch", "rfc", "rmove", "wfc", "writen", "wmoven") and not w[1].startswith("-") \
+                and c is not None and int(w[1]) > int(c) + 1:
+            dist["size>c+1"] = dist.get("size>c+1", 0) + 1
+        # outstanding writer region bookkeeping (tally only)
+        if w[0] == "wfc":
+            if verdict == "ok":
+                pend, drained = True, False
+        elif w[0] in ("read", "rmove", "fetch", "rfc", "rpk"):
+            if pend:
+                dist["region-survives-reader-op"] = dist.get("region-survives-reader-op", 0) + 1
+                if w[0] in ("read", "rmove") and verdict == "1" and " rd=0 " in out + " " and not w[1].startswith("0"):
+                    drained = True
+        else:
+            if w[0] == "wmn" and pend and drained and verdict == "1":
+                dist["commit-after-drain"] = dist.get("commit-after-drain", 0) + 1
+            pend = drained = False
     dist["distinct_impl_states(c,w,r,t)"] = len(_STATES)
 
 
 MANIFEST = {
     "level_text": ("Unbounded Coq theorems over an executable model of bytes_buffer.c (fields c,w,r,t and the byte array, all "
-                   "thirteen public operations): representation invariant preserved from init under every operation history, "
+                   "thirteen public operations, any int size, zero-copy regions outstanding while the other side works, "
+                   "capacity 0 and failing init): representation invariant preserved from init under every operation history, "
                    "trace-level refinement of a byte FIFO (every byte delivered by read/fetch/reader_fc is the next accepted "
                    "byte, exactly once, readable() = accepted - consumed after every step, zero-copy fc/move pairs with partial "
                    "advances included), failure iff the kind of space/data needed is lacking and then the state is unchanged, "
@@ -740,8 +1180,10 @@ MANIFEST = {
                    "enumeration of all reachable cursor states for small capacities, random long histories, stale-mark "
                    "sequences), plus an independent bytearray-FIFO monitor."),
     "design_ref": "DESIGN.md section 6 / C07, Appendix A.4, Appendix B",
-    "level_note": ("Theorems are for the code with fixes/C07-*.patch applied (two genuine defects found first on the unchanged "
+    "level_note": ("Theorems are for the code with fixes/C07-*.patch applied (three genuine defects found first on the unchanged "
                    "tree).  Trusted: Coq kernel, extraction (ExtrOcamlBasic), the differential harness, ASan; C int overflow "
-                   "not modelled; API contract of Appendix B assumed for writer_move_n."),
+                   "not modelled; API contract of Appendix B assumed for writer_move_n (pointer of the last successful "
+                   "writer_fc, k <= n, no writer-side operation in between); byte counts of read / fetch / reader_move "
+                   "non-negative."),
     "technique": "Coq invariant + trace refinement to a list FIFO (induction over op lists) + extracted-model differential run + ASan",
 }
